@@ -550,7 +550,36 @@ def mon_ptr(run):
     return bad[:3]
 
 
+def mon_drain(run):
+    """C19: drain_into returns exactly the number of values it appended; on a closed channel it takes nothing."""
+    bad = []
+    for o in run.ops():
+        if o["op"].startswith("drain") and o["ret"] is not None and o["res"].startswith("drained"):
+            m = re.match(r"drained (\d+) \[([\d,]*)\]", o["res"])
+            if m:
+                n, lst = int(m.group(1)), [x for x in m.group(2).split(",") if x]
+                if n != len(lst):
+                    bad.append(f"{o['tid']} {o['op']}: returned {n} but appended {len(lst)} values {lst}")
+    return bad
+
+
+def mon_waker_life(run):
+    """C07: a waker instance is only used (woken, cloned from) while it is alive: the peer must wake its own
+    clone, never the instance stored inside the future, which dies with the future."""
+    bad, dropped = [], set()
+    for i, (tid, kind, args) in enumerate(run.events):
+        if kind == "wdrop":
+            dropped.add(args[0])
+        elif kind == "wwake":
+            inst = args[0]
+            if inst == "x" or inst in dropped:
+                bad.append(f"event {i}: {tid} wakes waker instance {inst} of waker {args[1]} after it was dropped (use after the future was freed)")
+    return bad[:3]
+
+
 ALL_MONITORS = {
+    "wakerlife": lambda run, ctx: mon_waker_life(run),
+    "drain": lambda run, ctx: mon_drain(run),
     "ptr": lambda run, ctx: mon_ptr(run),
     "orderings": lambda run, ctx: mon_orderings(run, ctx["ords"]),
     "peerproto": lambda run, ctx: mon_peer_protocol(run),
